@@ -1,0 +1,75 @@
+use proc_macro2::{Ident, Span, TokenStream, TokenTree};
+use quote::ToTokens;
+use syn::{ext::IdentExt, punctuated::Punctuated, Data, DeriveInput, Meta, Token};
+
+/// The tokens of every `#[educe(..)]` entry for the trait `name` (on the type, its variants and its
+/// fields). They are all of the user's tokens that can end up inside the body of a generated
+/// method of that trait (paths of custom methods).
+pub(crate) fn trait_attribute_tokens(ast: &DeriveInput, name: &str) -> TokenStream {
+    fn collect(attributes: &[syn::Attribute], name: &str, output: &mut TokenStream) {
+        for attribute in attributes {
+            if attribute.path().is_ident("educe") {
+                if let Meta::List(list) = &attribute.meta {
+                    if let Ok(result) =
+                        list.parse_args_with(Punctuated::<Meta, Token![,]>::parse_terminated)
+                    {
+                        for meta in result {
+                            if meta.path().is_ident(name) {
+                                meta.to_tokens(output);
+                            }
+                        }
+                    }
+                }
+            }
+        }
+    }
+
+    let mut output = TokenStream::new();
+
+    collect(&ast.attrs, name, &mut output);
+
+    match &ast.data {
+        Data::Struct(data) => {
+            for field in data.fields.iter() {
+                collect(&field.attrs, name, &mut output);
+            }
+        },
+        Data::Enum(data) => {
+            for variant in data.variants.iter() {
+                collect(&variant.attrs, name, &mut output);
+
+                for field in variant.fields.iter() {
+                    collect(&field.attrs, name, &mut output);
+                }
+            }
+        },
+        Data::Union(data) => {
+            for field in data.fields.named.iter() {
+                collect(&field.attrs, name, &mut output);
+            }
+        },
+    }
+
+    output
+}
+
+/// An identifier starting with `base`, lengthened with `suffix` until it occurs nowhere in
+/// `tokens` (paths may be given as string literals, so these are looked into).
+pub(crate) fn fresh_ident(tokens: &TokenStream, base: &str, suffix: char) -> Ident {
+    fn contains(token_stream: TokenStream, name: &str) -> bool {
+        token_stream.into_iter().any(|token| match token {
+            TokenTree::Ident(ident) => ident.unraw() == name,
+            TokenTree::Group(group) => contains(group.stream(), name),
+            TokenTree::Literal(literal) => literal.to_string().contains(name),
+            _ => false,
+        })
+    }
+
+    let mut name = String::from(base);
+
+    while contains(tokens.clone(), &name) {
+        name.push(suffix);
+    }
+
+    Ident::new(&name, Span::mixed_site())
+}
